@@ -39,6 +39,18 @@ CHECKS = {
     "C09": dict(engine="E3", cat="fault_enumeration", ref="4/C09",
                 text="On top of the E1/E2 state sets: for every explored (state, operation) the number E of throwing events inside the operation (element value/default/copy construction, copy assignment, allocate/reallocate) is measured and the history is replayed E times with the k-th event throwing, for EVERY k. After the fault: ledgers balanced, every visible element alive and not moved-from, documented strong-guarantee operations left the contents unchanged, const sources untouched; the state the fault left behind is then explored like any other (every further operation, destruction), with a second fault allowed in the thorough tier.",
                 note=E1_NOTE + "; fault points are those of the instrumented element types and ledger allocators (std::bad_alloc / a private exception type); sets: basic guarantee = still a valid set equal to some std::set", tech="exhaustive fault-point enumeration over the explored state set of the real implementation"),
+    "C10": dict(engine="E1", cat="model_checking", ref="4/C10",
+                text="The aliasing forms (push_back(v[s]), emplace_back(v[s]), insert(p,v[s]), insert(p,n,v[s]), emplace(p,v[s]), resize(n,v[s]), assign(n,v[s]), append(n,v[s])) are operations of the E1 alphabet: every position p, source index s and count 0..3 from every reachable state (exactly full, one spare slot, ample spare capacity, inline and heap) with sizes up to 5-6, compared with std::vector, which copies first.",
+                note=E1_NOTE, tech="explicit-state BFS over the real implementation (complete position x source x count x capacity-state grid)"),
+    "C12": dict(engine="E2", cat="model_checking", ref="4/C12",
+                text="E2 restricted to insert/erase (to reach every subset of the key domain, with exact and spare capacity) plus insert(hint,const&), insert(hint,&&), emplace_hint for EVERY hint in [begin,end] and EVERY value (present, absent below/between/above): the resulting sequence must equal std::set's and the returned iterator must designate the element equivalent to the value; comparators less/greater/coarse, four underlying vectors.",
+                note="all 2^k subsets of k keys (k=6 quick, 9 thorough); g++12/libstdc++", tech="explicit-state BFS over the real implementation (complete content x hint x value grid)"),
+    "C13": dict(engine="E1s", cat="model_checking", ref="4/C13",
+                text="BFS over a heterogeneous pair (A a; B b) for ordered pairs of flavour/N/size_type/allocator configurations: shaping operations (push/pop/clear/reserve/shrink/adopt a heap buffer smaller than N/fill near the 8-bit limit) reach every operand state; a.swap2(b) and b.swap2(a) run from every reachable pair state; impossible exchange => exception and both sequences unchanged, otherwise sequences exchanged; identity and allocator ledgers balanced; both operands are explored further afterwards.",
+                note="sizes <= 4-6 plus sizes 250..300 for 8-bit size types; 10 ordered pairs quick, all 64 thorough; states keyed by (size, capacity, inline?) of both operands", tech="explicit-state BFS over the real implementation (pair states), ledger oracles"),
+    "C14": dict(engine="E1+E2", cat="model_checking", ref="4/C14",
+                text="E1/E2 in relocation mode: each container whose type claims trivially_relocatable is memcpy'd to another buffer (source poisoned, never destroyed) before the checked operation of every transition (thorough: after every operation of every history too); all contents/lifetime/allocator oracles then apply to the relocated object. Instantiations with non-relocatable parts must not claim the trait.",
+                note=E1_NOTE, tech="explicit-state BFS over the real implementation with byte-wise relocation injected at every state"),
     "C15": dict(engine="E-mem", cat="fault_enumeration", ref="4/C15",
                 text="Every memory algorithm x length x iterator kind x value category x EVERY throw index, under -std=c++11/14/17/20 (separate builds so both the emulations and the std:: branches run), compared with a reference written from the standard's wording and with std:: itself; ledger shows all created objects destroyed and relocate sources alive after a throw.",
                 note="lengths 0..3 (quick) / 0..5 (thorough); g++ (and clang++ in thorough); forked per group so UB crashes are attributed to a case",
@@ -53,10 +65,6 @@ CHECKS = {
 }
 
 NOT_YET = {
-    "C10": "check under construction",
-    "C12": "check under construction",
-    "C13": "check under construction",
-    "C14": "check under construction",
     "C16": "check under construction",
     "C18": "check under construction",
     "C19": "check under construction",
@@ -64,6 +72,7 @@ NOT_YET = {
 
 ENGINES = [
     dict(name="E1", path="src/explore_vec.cpp", serves_properties=["C01", "C02", "C05", "C06", "C07", "C08", "C10", "C14"], kind_free_text="explicit-state BFS over real vector instantiations with reference model and ledgers"),
+    dict(name="E1s", path="src/explore_swap2.cpp", serves_properties=["C13"], kind_free_text="explicit-state BFS over a heterogeneous pair of vectors for swap2"),
     dict(name="E2", path="src/explore_set.cpp", serves_properties=["C02", "C03", "C04", "C05", "C11", "C14"], kind_free_text="explicit-state BFS over real FlatSet/SmallSet instantiations against std::set"),
     dict(name="E3", path="src/explore_vec.cpp --fault / src/explore_set.cpp --fault", serves_properties=["C09"], kind_free_text="fault-index enumeration over every explored (state, operation) of E1/E2"),
     dict(name="E-mem", path="src/c15/c15.cpp", serves_properties=["C15"], kind_free_text="exhaustive case x fault-index enumeration of the memory algorithms per language standard"),
